@@ -1319,3 +1319,14 @@ for _i in [1, 2, 3, 4, 5, 6, 7, 8, 10, 11, 12, 13, 14, 15, 16, 17, 18, 19, 20]:
 for _i in [1, 2, 3, 4, 5, 6, 7, 8, 10, 11, 12, 13, 14, 15, 16, 17, 18, 19, 20]:
     VARIANTS.append(dict(id="np-functions-c%02d" % _i, prop="C%02d" % _i, expect="silent", rule=None, edits=[("@np_functions",)],
                          what="array methods spelled as numpy functions (x.sum(axis=0) -> np.sum(x, axis=0), x.T -> np.transpose(x), ...)"))
+_LG_INV = "        A = np.linalg.inv(np.eye(self.p) - W.T)\n"
+V("r8-c01-negation-in-user-dtype", "C01", "fire", LG, _LG_INV, "        M = -W.T\n        np.fill_diagonal(M, 1)\n        A = np.linalg.inv(M)\n", rule="DTYPE.inverse-input",
+  what="-W wraps around for unsigned weight matrices (the old expression promoted to float first)")
+V("r8-c01-undecided-negation-in-float", "C01", "undecided", LG, _LG_INV, "        M = -W.T.astype(float)\n        np.fill_diagonal(M, 1)\n        A = np.linalg.inv(M)\n",
+  what="same matrix, formed in floating point: correct, fill_diagonal is not read by the formula rules")
+V("r8-c20-isclose-shortcut", "C20", "fire", NO, "def laplace(mean=0, scale=1):\n", "def laplace(mean=0, scale=1):\n    if np.isclose(scale, 0):\n        return lambda n: np.full(n, float(mean))\n",
+  rule="TRAP.approx-branch", what="scales below 1e-8 are treated as 0")
+V("r8-c20-power-in-place", "C20", "fire", NO, "def normal(mean=0, var=1):\n    return lambda n: np.random.normal(mean, var**0.5, n)", "def normal(mean=0, var=1):\n    var **= 0.5\n    return lambda n: np.random.normal(mean, var, n)",
+  rule="OWN.normal", what="`var **= 0.5` rewrites a 0-d array argument in place")
+V("r8-c19-allclose-constant-response", "C19", "fire", SE, "                    Y = pd.DataFrame(self._data[k][:, i])\n", "                    if np.allclose(self._data[k][:, i], self._data[k][0, i]):\n                        continue\n                    Y = pd.DataFrame(self._data[k][:, i])\n",
+  rule="TRAP.approx-branch", what="a response with a large offset counts as constant and gets no forest", accept_inconclusive=True)
